@@ -25,3 +25,20 @@ pub broadcast axiom fn axiom_array_ref_try_from_slice<'a, const N: usize>(s: &'a
     ensures
         (#[trigger] <&'a [u8] as vstd::std_specs::convert::TryIntoSpec<&'a [u8; N]>>::try_into_spec(s)) is Ok <==> s@.len() == N,
         s@.len() == N ==> (<&'a [u8] as vstd::std_specs::convert::TryIntoSpec<&'a [u8; N]>>::try_into_spec(s))->Ok_0@ == s@;
+// the same conversions reached through `TryFrom::try_from` directly (vstd does not link its TryInto blanket spec to TryFrom)
+pub broadcast axiom fn axiom_array_try_from_slice_obeys_tf<'a, const N: usize>()
+    ensures #[trigger] <[u8; N] as vstd::std_specs::convert::TryFromSpec<&'a [u8]>>::obeys_try_from_spec();
+pub broadcast axiom fn axiom_array_try_from_slice_tf<'a, const N: usize>(s: &'a [u8])
+    ensures
+        (#[trigger] <[u8; N] as vstd::std_specs::convert::TryFromSpec<&'a [u8]>>::try_from_spec(s)) is Ok <==> s@.len() == N,
+        s@.len() == N ==> (<[u8; N] as vstd::std_specs::convert::TryFromSpec<&'a [u8]>>::try_from_spec(s))->Ok_0@ == s@;
+pub broadcast axiom fn axiom_array_ref_try_from_slice_obeys_tf<'a, const N: usize>()
+    ensures #[trigger] <&'a [u8; N] as vstd::std_specs::convert::TryFromSpec<&'a [u8]>>::obeys_try_from_spec();
+pub broadcast axiom fn axiom_array_ref_try_from_slice_tf<'a, const N: usize>(s: &'a [u8])
+    ensures
+        (#[trigger] <&'a [u8; N] as vstd::std_specs::convert::TryFromSpec<&'a [u8]>>::try_from_spec(s)) is Ok <==> s@.len() == N,
+        s@.len() == N ==> (<&'a [u8; N] as vstd::std_specs::convert::TryFromSpec<&'a [u8]>>::try_from_spec(s))->Ok_0@ == s@;
+pub broadcast group group_array_conversions {
+    axiom_array_try_from_slice, axiom_array_try_from_slice_obeys, axiom_array_ref_try_from_slice, axiom_array_ref_try_from_slice_obeys,
+    axiom_array_try_from_slice_tf, axiom_array_try_from_slice_obeys_tf, axiom_array_ref_try_from_slice_tf, axiom_array_ref_try_from_slice_obeys_tf,
+}
